@@ -5,7 +5,7 @@ From Coq Require Import List Arith Bool ZArith Lia.
 From Leaspy Require Dag.DagModel.
 From Leaspy Require Import State.StateModel State.StateNow Compose.DagState Compose.DagStateProofs.
 Import ListNotations.
-Open Scope Z_scope.
+Local Open Scope Z_scope.
 
 (** names in sorted order: 0 "d" = x2 - x1, 1 "x1", 2 "x2", 3 "e" = 2 d, 4 "h" = 7 (hyper-parameter), 5 "s" = h + e *)
 Definition ex_defs : list (vdef Z) :=
